@@ -889,22 +889,28 @@ public:
 	    \param sz size of string
 	    \param tag tag to extract to
 	    \param val value to extract to
-	    \return number of bytes consumed */
-	static unsigned extract_element(const char *from, const unsigned sz, char *tag, char *val)
+	    \param tag_sz size of the tag buffer
+	    \param val_sz size of the value buffer
+	    \return number of bytes consumed; 0 if no element could be extracted or it does not fit the buffers */
+	static unsigned extract_element(const char *from, const unsigned sz, char *tag, char *val,
+		const unsigned tag_sz=MAX_MSGTYPE_FIELD_LEN, const unsigned val_sz=FIX8_MAX_FLD_LENGTH)
 	{
 		enum { get_tag, get_value } state(get_tag);
+		char * const tag_start(tag), * const val_start(val);
 
 		for (unsigned ii(0); ii < sz; ++ii)
 		{
 			switch (state)
 			{
 			case get_tag:
-				if (!isdigit(from[ii]))
+				if (!isdigit(static_cast<unsigned char>(from[ii])))
 				{
 					if (from[ii] != default_assignment_separator)
-						return *val = *tag = 0;
+						return *val_start = *tag_start = 0;
 					state = get_value;
 				}
+				else if (static_cast<unsigned>(tag - tag_start) + 1 >= tag_sz)
+					return *val_start = *tag_start = 0;
 				else
 					*tag++ = from[ii];
 				break;
@@ -914,11 +920,13 @@ public:
 					*val = *tag = 0;
 					return ++ii;
 				}
+				if (static_cast<unsigned>(val - val_start) + 1 >= val_sz)
+					return *val_start = *tag_start = 0;
 				*val++ = from[ii];
 				break;
 			}
 		}
-		return *val = *tag = 0;
+		return *val_start = *tag_start = 0;
 	}
 
 	/*! Extract a tag and fixed width value element from a char buffer. ULL version.
@@ -933,8 +941,10 @@ public:
 		*val = *tag = 0;
 		for (unsigned ii(0); ii < sz; ++ii)
 		{
-			if(isdigit(from[ii]))
+			if(isdigit(static_cast<unsigned char>(from[ii])))
 			{
+				if (ii + 1 >= MAX_MSGTYPE_FIELD_LEN)
+					break;
 				*tag++ = from[ii];
 				continue;
 			}
